@@ -40,6 +40,8 @@ func checkC19(p *Program, r *Reporter) {
 	e.ruleLockPairing(r, "E2-LOCKPAIR", fns)
 	// files are the other shared resource of concurrent uploads: a per-segment file belongs to one track
 	trackPathRule(p, r)
+	noDropRule(p, r, fns, "recv.channel.recSegCh")
+	tableValueRule(p, r, fns)
 }
 
 func sortedKeys(m map[string]bool) []string {
